@@ -20,6 +20,7 @@ fn main() {
     match suite {
         "types" => {}
         "bytes" => suite_bytes::run(&reg, &suite_bytes::Cfg { seed, thorough, only, scale }, &mut out),
+        "emplace" => suite_emplace::run(&reg, &gen_types::defaults(), &suite_emplace::Cfg { seed, thorough, only, scale }, &mut out),
         "exec" => {
             // lines on stdin: left-hand sides (anything after " => " is ignored)
             let mut ar = arena::Arena::new(1);
@@ -27,9 +28,19 @@ fn main() {
             let stdin = std::io::stdin();
             let mut line = String::new();
             while { line.clear(); std::io::BufRead::read_line(&mut stdin.lock(), &mut line).unwrap() > 0 } {
-                let lhs = line.trim_end().split(" => ").next().unwrap().to_string();
+                let mut lhs = line.trim_end().split(" => ").next().unwrap().to_string();
+                if lhs.is_empty() || lhs.starts_with('#') { continue; }
+                // a type may be given by name (`@Name`): corpus files survive catalog changes
+                let fields: Vec<String> = lhs.split(' ').map(|x| x.to_string()).collect();
+                if fields.len() > 1 && fields[1].starts_with('@') {
+                    match reg.iter().position(|t| t.name().replace(' ', "") == fields[1][1..]) {
+                        Some(tid) => { let mut f2 = fields.clone(); f2[1] = tid.to_string(); lhs = f2.join(" "); }
+                        None => { continue; }
+                    }
+                }
                 match lhs.split(' ').next().unwrap_or("") {
                     "B" => suite_bytes::exec_line(&reg, &mut ar, &mut ar2, &lhs, &mut out),
+                    "E" | "F" | "A" => suite_emplace::exec_line(&reg, &mut ar, &lhs, &mut out),
                     _ => {}
                 }
             }
